@@ -2,6 +2,7 @@ package main
 
 import (
 	"fmt"
+	"sort"
 	"strconv"
 	"strings"
 
@@ -439,6 +440,51 @@ func gen(g *vh.Gen) {
 			fl = "file"
 		}
 		g.Emit("bytes", fl, fuzzInit, vh.HS(b.String()))
+	}
+	// scripted connections (kind net; model side = Coq's run_net): a pause at every byte offset of
+	// valid dialogues, all three endings; random cuts of dialogues and garbage into 1-4 chunks
+	fins := []string{"eof", "idle", "err"}
+	nn := 0
+	for di := 0; di < g.N(2, len(dialogues)); di++ {
+		d := dialogues[di]
+		for _, fin := range fins {
+			g.Emit("net", []string{"mem", "file"}[nn%2], fuzzInit, vh.HS(d), fin)
+			nn++
+		}
+		for k := 0; k <= len(d); k++ {
+			g.Emit("net", []string{"mem", "file"}[nn%2], fuzzInit, vh.HS(d[:k])+","+vh.HS(d[k:]), fins[nn%3])
+			nn++
+		}
+	}
+	for i := 0; i < g.N(300, 10000); i++ {
+		var d string
+		if g.Chance(0.7) {
+			d = g.Pick(dialogues...)
+		} else {
+			var b strings.Builder
+			for j, n := 0, g.Intn(40); j < n; j++ {
+				b.WriteString(g.Pick(alpha...))
+			}
+			d = b.String()
+		}
+		nc := 1 + g.Intn(4)
+		cuts := make([]int, 0, nc+1)
+		for j := 0; j < nc-1; j++ {
+			cuts = append(cuts, g.Intn(len(d)+1))
+		}
+		sort.Ints(cuts)
+		cuts = append(cuts, len(d))
+		var cs []string
+		prev := 0
+		for _, c := range cuts {
+			cs = append(cs, vh.HS(d[prev:c]))
+			prev = c
+		}
+		chunks := strings.Join(cs, ",")
+		if g.Chance(0.03) {
+			chunks = "-"
+		}
+		g.Emit("net", []string{"mem", "file"}[i%2], fuzzInit, chunks, g.Pick(fins...))
 	}
 	// exhaustive small dialogues: every pair of transaction commands on a 2-message mailbox
 	cmds := []string{"STAT", "LIST", "LIST 1", "LIST 2", "LIST 3", "UIDL", "UIDL 2", "DELE 1", "DELE 2", "DELE 0", "RETR 1", "RETR 3",
